@@ -11,6 +11,11 @@
 open Model
 open Conv
 
+(* Which reader the model mirrors: Cur = the shipped parse.rs, Fix = parse.rs with patches/000N-fix-btor2-*.diff applied
+   (Model.parse_*_v, theorems C18_no_crash_fix / C18_accepted_well_typed_fix / C08_rejects_ill_formed_fix).
+   Shared by the C08, C09 and C18 handlers. *)
+let code_variant = Cur
+
 let big_coqstr (s : string) : char list =
   let r = ref [] in
   for i = String.length s - 1 downto 0 do r := s.[i] :: !r done;
@@ -294,7 +299,7 @@ let first_sem_error (ctext : char list) : string =
 let first_model_error (dbg : bool) (ctext : char list) : string =
   let rec go st = function
     | [] -> "-"
-    | l :: ls -> (match parse_line dbg st l with POk st' -> go st' ls | _ -> tok_op l)
+    | l :: ls -> (match parse_line_v code_variant dbg st l with POk st' -> go st' ls | _ -> tok_op l)
   in
   go p_empty (List.map tokenize (split_lines ctext))
 
@@ -336,7 +341,7 @@ let handle_c08 (x : Sexp.t) : string =
       (match sem0 with
        | B2Ok _ -> Registry.result ~id ~status:"fail" ~key:("rejects-well-formed:" ^ first_model_error dbg ctext) ~detail:"the reference interpreter accepts the text, parse_str reports errors" ()
        | B2Err _ ->
-           (match parse_text_raw dbg ctext with
+           (match parse_text_raw_v code_variant dbg ctext with
             | PErr -> Registry.result ~id ~status:"ok" ~key:("err+" ^ semclass) ()
             | _ -> Registry.result ~id ~status:"diff" ~key:"class" ~detail:"impl err, model differs" ()))
   | Sexp.List (Sexp.Atom "ok" :: fields) ->
@@ -350,7 +355,7 @@ let handle_c08 (x : Sexp.t) : string =
        | B2Ok s0 ->
            (* model vs implementation *)
            let corr =
-             match parse_text_raw dbg ctext with
+             match parse_text_raw_v code_variant dbg ctext with
              | POk (raw, ren) -> (match compare_sys d s (demote raw) ren with None -> None | Some w -> Some ("system: " ^ w))
              | _ -> Some "class: impl ok, model not" in
            let sizes = tree_sizes d in
